@@ -41,12 +41,15 @@ def lattice(real, bound, L, n, rnd, out, tag):
                     sep = [0.0, 0.0, 0.0]
                     sep[direction], sep[others[0]], sep[others[1]] = a, b, c
                     for c1c2 in (1.0, -1.0):
-                        q = real.derivative(vel, sep, 1.0, c1c2)
+                        # as the event handlers do: one separation list, handed first to the bound, then to the potential
+                        sep0 = list(sep)
                         qb = bound.derivative(vel, sep, 1.0, c1c2)
+                        q = real.derivative(vel, sep, 1.0, c1c2)
+                        sep = list(sep0)
                         count += 1
                         if q > 0 and qb > 0 and q / qb > worst[0]:
-                            worst = (q / qb, [L, direction, sep, c1c2])
-                        out.write(json.dumps(dict(q=fkey(q), qb=fkey(qb), L=L, d=direction, s=sep, c=c1c2, tag=tag)) + "\n")
+                            worst = (q / qb, [L, direction, sep0, c1c2])
+                        out.write(json.dumps(dict(q=fkey(q), qb=fkey(qb), L=L, d=direction, s=sep0, c=c1c2, tag=tag)) + "\n")
     return count, worst
 
 
@@ -82,10 +85,22 @@ def config_pairs():
         if key in seen:
             continue
         seen.add(key)
-        c, w = lattice(h._potential, h._bounding_potential, h._potential._system_length, n, rnd, out, type(h).__name__)
-        total += c
-        if w[0] > worst[0]:
-            worst = w
+        # the pair as the factory built it, and the same objects after the histories a run puts them through: deep copy
+        # (one copy per event handler instance) and a dill round trip (dump + resume)
+        import copy
+        import dill
+        variants = [("as built", h._potential, h._bounding_potential)]
+        try:
+            variants.append(("deep copy", copy.deepcopy(h._potential), copy.deepcopy(h._bounding_potential)))
+            variants.append(("after dump and resume (dill round trip)",) + tuple(dill.loads(dill.dumps((h._potential, h._bounding_potential)))))
+        except NotImplementedError:
+            pass
+        for vi, (vname, pot, bnd) in enumerate(variants):
+            c, w = lattice(pot, bnd, h._potential._system_length, n, rnd, out,
+                           type(h).__name__ + (", " + vname if vi else ""))
+            total += c
+            if w[0] > worst[0]:
+                worst = w
     out.close()
     json.dump(dict(points=total, max_ratio=worst[0], at=worst[1], pairs=len(seen)), sys.stdout)
 
